@@ -166,6 +166,20 @@ def gen_case(rng, idx):
     # most histories start by creating something to edit
     for pid in rng.sample(VPORT_IDS, rng.choice([1, 2, 2, 3])):
         ops.append(gen_vport(rng, pid))
+    created = [o for o in ops]
+    if rng.random() < 0.6:
+        # a persisted port with a value (and often a write transform)
+        o = rng.choice(created)
+        ops.append({'op': 'patch_port', 'id': o['id'], 'attrs': {'persisted': True, 'transform_write': rng.choice(['', 'MUL($, 2)', 'ADD($, 1)', 'MUL($, 1)'])}})
+        if o['type'] == 'boolean':
+            v = rng.random() < 0.5
+        elif o.get('choices'):
+            v = rng.choice([1, 2, 5])
+        elif 'min' in o:
+            v = o['min'] if rng.random() < 0.5 else o['max']
+        else:
+            v = rng.choice([0, 1, 3, 7, -4]) if o.get('integer') else rng.choice([0, 1, 2.5, 7, -4, 0.25])
+        ops.append({'op': 'write', 'id': o['id'], 'value': v})
     if with_slaves:
         for sim in rng.sample(SIMS, rng.choice([1, 1, 2])):
             ops.append({'op': 'add_slave', 'scheme': 'http', 'host': sim['host'], 'port': sim['port'], 'path': '/',
@@ -327,6 +341,14 @@ def deleted_ids(case, log):
 def oracle(case, res):
     """-> list of violations {'key':..., 'what':..., 'detail':...} of the property on this run of the real code"""
     out = []
+    if res.get('error') and res.get('before') and not res.get('loaded'):
+        lines = [x for x in res['error'].strip().splitlines() if x.strip()]
+        causes = [x[len('cause: '):] for x in lines if x.startswith('cause: ')]
+        cause = (causes[-1] if causes else lines[0]).split(':')[0].split('.')[-1]
+        out.append({'key': {'object': 'hub', 'field': '<start-up>', 'cause': cause},
+                    'what': 'the hub does not start from the store it saved: %s (%s)' % (lines[0][:200], '; '.join(causes)[:300]),
+                    'detail': {'error': lines[0][:300], 'causes': causes[:5]}})
+        return out
     if res.get('error') or not res.get('after'):
         return out
     before, loaded, after, store = res['before'], res['loaded'], res['after'], res['store']
@@ -373,7 +395,9 @@ def oracle(case, res):
         if owner not in polled:
             hb = before['internals']['history_last_timestamp'].get(pid)
             hl = loaded['internals']['history_last_timestamp'].get(pid) if '.' not in pid else None
-            if '.' not in pid and hb != hl:
+            # only periodic sampling (history_interval > 0) reads the timestamp; the on-change recorder sets it without
+            # marking the port for saving (observation O5)
+            if '.' not in pid and hb != hl and (bp.get('history_interval') or 0) > 0:
                 add(kind(pid), 'history_last_timestamp', 'port %s: history_last_timestamp %s before, %s after loading' % (pid, hb, hl),
                     {'before': hb, 'after': hl})
         # value and driver writes
@@ -393,6 +417,8 @@ def oracle(case, res):
                     pid, json.dumps(bp.get('value')), json.dumps(target.get('value'))), {'before': bp.get('value'), 'after': target.get('value')})
             if bp.get('writable'):
                 exp, known = tw_eval(bp.get('transform_write') or '', raw_before, bp.get('type'), bp.get('integer'))
+                if (bp.get('transform_write') or '') and not bp.get('enabled'):
+                    exp, known = None, True      # the transform of a disabled port cannot read the port's own value
                 if known and not same_value(writes, [exp]):
                     add(kind(pid), 'driver-writes', 'persisted port %s (last value %s, transform_write %r): driver writes during loading are %s, '
                         'expected exactly [%s]' % (pid, json.dumps(raw_before), bp.get('transform_write'), json.dumps(writes), json.dumps(exp)),
@@ -553,8 +579,10 @@ def model_tie(ctx, res, cases, results, name):
             bp = dict(bp, _last_value=before['internals'].get('last_values', {}).get(pid))
             lp = dict(l_ports[pid], _last_value=loaded['internals'].get('last_values', {}).get(pid))
             try:
-                items.append('(%s)' % port_case(pid, bp, lp, r['defaults'][pid], recs[pid],
-                                               before['internals']['history_last_timestamp'].get(pid),
+                hb = before['internals']['history_last_timestamp'].get(pid)
+                if (bp.get('history_interval') or 0) <= 0:
+                    hb = recs[pid].get('history_last_timestamp', 0)          # see observation O5
+                items.append('(%s)' % port_case(pid, bp, lp, r['defaults'][pid], recs[pid], hb,
                                                loaded['internals']['history_last_timestamp'].get(pid), loaded['writes'].get(pid, [])))
                 owners.append((ci, 'port', pid))
             except ValueError as e:
@@ -609,7 +637,9 @@ def model_tie(ctx, res, cases, results, name):
             res['violations'].append({
                 'key': {'object': what, 'field': 'coq-spec'},
                 'what': 'Coq specification oracle: %s %s does not come back unchanged (case %s)' % (what, ident, cases[ci]['name']),
-                'case': {'machine': cases[ci]}, 'observed': items[off + j][:1500]})
+                'case': {'driver': 'json-mem', 'history_enabled': cases[ci]['history'],
+                         'requests': [describe(o) for o in cases[ci]['ops']], 'machine': cases[ci]},
+                'observed': items[off + j][:1500]})
 
 
 def slave_fields(s, internals):
@@ -720,7 +750,7 @@ def account(res, cases, results):
             dist['histories with a slave'] = dist.get('histories with a slave', 0) + 1
         if len(kinds) >= 3 and n_ports >= 4:
             res['distinct_nontrivial'] += 1
-        if r.get('error'):
+        if r.get('error') and not (r.get('before') and not r.get('loaded')):
             res['tie_failures'].append('worker error in case %s: %s' % (case['name'], r['error'][-600:]))
 
 
@@ -746,7 +776,7 @@ def report(ctx, res, cases, results, driver, do_shrink=True):
                     ctx.log('shrink failed: %s' % e)
                     small = case
             res['violations'].append({
-                'key': dict(v['key'], driver=driver) if driver != 'json-mem' and False else v['key'],
+                'key': v['key'],
                 'what': v['what'],
                 'case': {'driver': driver, 'history_enabled': small['history'], 'requests': [describe(o) for o in small['ops']],
                          'then': 'wait for the save loop, shut down (startup.cleanup order), boot from the same store (startup.init order)',
